@@ -17,7 +17,10 @@ import numpy as np
 from harness import common
 from harness.gen import termgen
 
-CLASSES = ['LinearGAM', 'LogisticGAM', 'PoissonGAM', 'GammaGAM', 'InvGaussGAM', 'ExpectileGAM', 'GAM']
+# named classes, and the generic GAM with explicit distribution / link (binomial with several trials per row,
+# non-canonical and power links): the decomposition is stated for every model class and link
+CLASSES = ['LinearGAM', 'LogisticGAM', 'PoissonGAM', 'GammaGAM', 'InvGaussGAM', 'ExpectileGAM', 'GAM',
+           'GAM/binomial/logit/3', 'GAM/gamma/inverse', 'GAM/normal/log', 'GAM/inv_gauss/inv_squared', 'GAM/binomial/logit/6']
 
 
 def make_response(rng, cls_name, X):
@@ -26,6 +29,15 @@ def make_response(rng, cls_name, X):
     sig = np.tanh(X[:, 0] / (1 + np.abs(X[:, 0]).max()))
     if cls_name in ('LinearGAM', 'ExpectileGAM', 'GAM'):
         return sig * 2 + 0.3 * z
+    if cls_name.startswith('GAM/binomial'):
+        L = int(cls_name.split('/')[-1])
+        y = np.array([float(sum(rng.random() < 1 / (1 + np.exp(-(1.5 * s_ + 0.3 * zz))) for _ in range(L))) for s_, zz in zip(sig, z)])
+        y[0], y[1] = 0.0, float(L)
+        return y
+    if cls_name == 'GAM/gamma/inverse':
+        return (1.0 / (1.5 + 0.5 * sig)) * np.exp(0.1 * z) + 0.05
+    if cls_name == 'GAM/inv_gauss/inv_squared':
+        return (1.0 / np.sqrt(1.5 + 0.5 * sig)) * np.exp(0.1 * z) + 0.05
     if cls_name == 'LogisticGAM':
         y = (z + sig > 0).astype(float)
         y[0], y[1] = 0.0, 1.0
@@ -36,8 +48,15 @@ def make_response(rng, cls_name, X):
 
 
 def fit_model(rng, pygam, cls_name, pr):
-    cls = getattr(pygam, cls_name)
+    cls = getattr(pygam, cls_name.split('/')[0])
     kw = {}
+    if '/' in cls_name:
+        parts = cls_name.split('/')
+        if parts[1] == 'binomial':
+            from pygam.distributions import BinomialDist
+            kw.update(distribution=BinomialDist(levels=int(parts[3])), link=parts[2])
+        else:
+            kw.update(distribution=parts[1], link=parts[2])
     if cls_name == 'ExpectileGAM':
         kw['expectile'] = rng.choice([0.2, 0.5, 0.9])
     if cls_name == 'GAM':
@@ -138,7 +157,13 @@ def _check_model(ctx, cls_name, pr, gam, toks, grids, outs, st, st_or, st_g, st_
         nontriv = sum(1 for t in tl if not t.isintercept) > 1 or any(t.istensor or getattr(t, 'by', None) is not None for t in tl if not t.isintercept)
         # ---------------- oracle on the real code
         mu = gam.predict_mu(Xq)
-        lp_impl = gam.link.link(mu, gam.distribution)
+        # the link and its inverse are recomputed with NumPy formulas that do not go through pygam.links
+        from harness.gen import fitgen
+        lname = gam.link._name
+        levels = float(getattr(gam.distribution, 'levels', 1) or 1)
+        with np.errstate(all='ignore'):
+            lp_impl = np.asarray(fitgen.np_link(lname, levels, np.asarray(mu, dtype=float)), dtype=float)
+            lp_own = np.asarray(gam.link.link(mu, gam.distribution), dtype=float)
         pds = []
         icpt = 0.0
         for ti, t in enumerate(tl):
@@ -150,15 +175,28 @@ def _check_model(ctx, cls_name, pr, gam, toks, grids, outs, st, st_or, st_g, st_
         total = icpt + sum(p for p in pds if p is not None) if any(p is not None for p in pds) else np.full(len(Xq), icpt)
         total = np.asarray(total, dtype=float) * np.ones(len(Xq))
         scale = 1.0 + np.abs(total) + sum(np.abs(p) for p in pds if p is not None)
+        # cancellation inside a term (huge by-variable x raw-feature columns with coefficients of both signs): the
+        # rounding error of any evaluation order is eps * sum_j |B_rj| |beta_j|, which enters the tolerance scale
+        with np.errstate(all='ignore'):
+            colmag = np.asarray(np.abs(np.asarray(gam.terms.build_columns(Xq).todense(), dtype=float)) @ np.abs(np.asarray(gam.coef_, dtype=float))).ravel()
+        scale = scale + np.where(np.isfinite(colmag), colmag, 0.0) * 1e-6      # 1e-7 * 1e-6 * colmag ~ 450 eps colmag
         usable = np.isfinite(lp_impl) & (np.abs(total) < 30)      # link(mu(lp)) loses accuracy / saturates for huge |lp|
         ctx.case(st_or, sig, nontrivial=nontriv)
         bad = None
-        if usable.any() and (np.abs(lp_impl - total)[usable] > 1e-7 * scale[usable]).any():
-            i = int(np.argmax(np.where(usable, np.abs(lp_impl - total) / scale, 0)))
+        # link(mu) amplifies the rounding of mu by |g'(mu)| |mu| (logit at lp = 28: eps e^28 ~ 3e-4): part of the tolerance
+        with np.errstate(all='ignore'):
+            amp = np.abs(np.asarray(fitgen.np_grad(lname, levels, np.asarray(mu, dtype=float)), dtype=float)) * np.abs(mu)
+        tol_lp = 1e-7 * scale + 16 * np.finfo(float).eps * np.where(np.isfinite(amp), amp, np.inf)
+        if usable.any() and (np.abs(lp_impl - total)[usable] > tol_lp[usable]).any():
+            i = int(np.argmax(np.where(usable, np.abs(lp_impl - total) / tol_lp, 0)))
             bad = dict(reason='link(predict_mu) != intercept + sum of partial dependences', row=Xq[i].tolist(), link_mu=float(lp_impl[i]), total=float(total[i]))
         else:
-            mu2 = gam.link.mu(total, gam.distribution)
-            if (np.abs(mu2 - mu)[usable] > 1e-9 * (1 + np.abs(mu))[usable]).any():
+            with np.errstate(all='ignore'):
+                mu2 = np.asarray(fitgen.np_mu(lname, levels, total), dtype=float)
+            with np.errstate(all='ignore'):
+                gp = np.abs(np.asarray(fitgen.np_grad(lname, levels, np.asarray(mu, dtype=float)), dtype=float))
+                tol_mu = 1e-9 * (1 + np.abs(mu)) + np.where(np.isfinite(1.0 / gp), 1e-13 * colmag / gp, 0.0)   # rounding of the sum, carried through the inverse link
+            if (np.abs(mu2 - mu)[usable] > tol_mu[usable]).any():
                 bad = dict(reason='predicted mean != inverse link of the sum')
         if bad is None:
             # locality: change every column that the term does not use
@@ -195,12 +233,12 @@ def _check_model(ctx, cls_name, pr, gam, toks, grids, outs, st, st_or, st_g, st_
             vals = [float(v) for v in common.parse_vec(o)]
             lp_m, pd_m = vals[0], vals[1:]
             sc = 1.0 + abs(lp_m) + sum(abs(v) for v in pd_m)
-            if usable[r] and abs(lp_m - lp_impl[r]) > 1e-7 * sc:
+            if usable[r] and abs(lp_m - lp_impl[r]) > 1e-7 * sc + 1e-13 * colmag[r] + (tol_lp[r] - 1e-7 * scale[r]):
                 mismatch = 'row %d: model lp %.12g vs link(predict_mu) %.12g' % (r, lp_m, lp_impl[r])
             for ti, t in enumerate(tl):
                 if pds[ti] is None:
                     continue
-                if abs(pd_m[ti] - pds[ti][r]) > 1e-8 * sc:
+                if abs(pd_m[ti] - pds[ti][r]) > 1e-8 * sc + 1e-13 * colmag[r]:
                     mismatch = 'row %d term %d: model pdep %.12g vs %.12g' % (r, ti, pd_m[ti], pds[ti][r])
         if mismatch and not bad:
             ctx.disagree(st, sig, 'see detail', 'see detail', mismatch)
